@@ -130,6 +130,27 @@ impl SubscriberQueue {
     }
 }
 
+/// Puts a connection into a peer table and returns with the peer's bucket of the table still
+/// locked. Registering a connection and forgetting one take several steps (this table, the
+/// rotation, the fair queue) that other threads would interleave with - two connections of one
+/// peer registering at the same time, one registering while the other is being forgotten - and
+/// leave the write half of one connection here and the read half of the other in the fair
+/// queue, or a connected peer outside the rotation. So both sides do all their steps under this
+/// lock (and never wait for anything while they hold it).
+pub(crate) async fn register<'t, V>(
+    table: &'t scc::HashMap<PeerIdentity, V>,
+    peer_id: &PeerIdentity,
+    peer: V,
+) -> scc::hash_map::OccupiedEntry<'t, PeerIdentity, V> {
+    match table.entry_async(peer_id.clone()).await {
+        scc::hash_map::Entry::Occupied(mut registered) => {
+            registered.insert(peer);
+            registered
+        }
+        scc::hash_map::Entry::Vacant(vacant) => vacant.insert_entry(peer),
+    }
+}
+
 pub(crate) trait ForgetConn {
     fn forget_conn(&self, peer_id: &PeerIdentity, conn: u64);
 }
@@ -249,9 +270,7 @@ impl MultiPeerBackend for GenericSocketBackend {
     async fn peer_connected(self: Arc<Self>, peer_id: &PeerIdentity, io: FramedIo) {
         let (recv_queue, send_queue) = io.into_parts();
         let conn = next_conn();
-        self.peers
-            .upsert_async(peer_id.clone(), Peer::new(conn, send_queue))
-            .await;
+        let registered = register(&self.peers, peer_id, Peer::new(conn, send_queue)).await;
         self.round_robin.join(peer_id);
         match &self.fair_queue_inner {
             None => {}
@@ -261,6 +280,7 @@ impl MultiPeerBackend for GenericSocketBackend {
                     .insert_conn(peer_id.clone(), conn, recv_queue);
             }
         };
+        drop(registered);
     }
 
     fn peer_disconnected(&self, peer_id: &PeerIdentity) {
@@ -277,15 +297,16 @@ impl MultiPeerBackend for GenericSocketBackend {
 
 impl ForgetConn for GenericSocketBackend {
     fn forget_conn(&self, peer_id: &PeerIdentity, conn: u64) {
-        let forgotten = self
-            .peers
-            .remove_if_sync(peer_id, |peer| peer.conn == conn)
-            .is_some();
-        if forgotten {
-            self.round_robin.leave(peer_id);
-        }
+        // (all steps under the lock of the peer's bucket, see `register`)
+        let registered = self.peers.entry_sync(peer_id.clone());
         if let Some(inner) = &self.fair_queue_inner {
             inner.lock().remove_conn(peer_id, conn);
+        }
+        if let scc::hash_map::Entry::Occupied(registered) = registered {
+            if registered.get().conn == conn {
+                self.round_robin.leave(peer_id);
+                let _ = registered.remove_entry();
+            }
         }
     }
 }
